@@ -328,7 +328,13 @@ fn data_case(reg: Reg, front: Front, dslot: Option<usize>, off: Option<u8>, dcla
     }
     let mut model = Model { dl_map: Default::default() };
     let drs = uplink_drs(reg);
-    let steps = if dslot.is_some() { 6 } else { rng.range(6, 20) };
+    // one free history in twelve is a long silence at the lowest rate (100-140 unanswered uplinks: the ADR
+    // back-off has nowhere to go; the windows keep following what was negotiated, DlChannel pairings included)
+    let long_silence = dslot.is_none() && rng.chance(1, 12);
+    if long_silence {
+        col.event("long_silences_at_the_lowest_rate");
+    }
+    let steps = if dslot.is_some() { 6 } else if long_silence { rng.range(100, 141) } else { rng.range(6, 20) };
     // ---- put parameters in force ----------------------------------------------------------------
     let mut cmds: Vec<u8> = vec![];
     let want_off = off.unwrap_or_else(|| rng.below(8) as u8);
@@ -425,6 +431,7 @@ fn data_case(reg: Reg, front: Front, dslot: Option<usize>, off: Option<u8>, dcla
     for step in 0..steps {
         let dr = match dslot {
             Some(sl) => drs[sl % drs.len()],
+            None if long_silence => drs[0],
             None => *rng.pick(&drs),
         };
         link.dev.set_datarate(dr);
@@ -434,7 +441,7 @@ fn data_case(reg: Reg, front: Front, dslot: Option<usize>, off: Option<u8>, dcla
         // it must only affect the *next* uplink's windows
         let mut script = Script::silent();
         let mut changed = false;
-        if dslot.is_none() && rng.chance(1, 4) {
+        if dslot.is_none() && !long_silence && rng.chance(1, 4) {
             let o2 = rng.below(reg.max_rx1_offset() as u64 + 1) as u8;
             let c = rx_param_setup_req((o2 << 4) | (reg.rx2_default().1), reg.rx2_default().0 / 100);
             let f = link.mac_frame(&c, true);
@@ -448,7 +455,7 @@ fn data_case(reg: Reg, front: Front, dslot: Option<usize>, off: Option<u8>, dcla
         // a request the device has to refuse (RX2 on 100 MHz, in no region's band) whose other fields are
         // valid and differ from what is in force: the negotiated values stay what they were
         let mut refused = false;
-        if dslot.is_none() && !changed && rng.chance(1, 6) {
+        if dslot.is_none() && !changed && !long_silence && rng.chance(1, 6) {
             let o2 = (snap.rx1_dr_offset + 1 + rng.below(reg.max_rx1_offset() as u64) as u8) % (reg.max_rx1_offset() + 1);
             let c = rx_param_setup_req((o2 << 4) | (reg.rx2_default().1), 1_000_000);
             let f = link.mac_frame(&c, rng.bool());
